@@ -414,6 +414,19 @@ func (f *Frame) freshResults(sig *types.Signature, at string, st *State, hint st
 	return &Val{Tup: res}
 }
 
+// allocOnly: a frame lists no location of the (location-indexed) component.
+func allocOnly(c *Component, locs []modLoc) bool {
+	if !strings.HasPrefix(c.Sort, "(Array Int ") {
+		return false // ghost state: not indexed by references
+	}
+	for _, l := range locs {
+		if l.Comp.Name == c.Name {
+			return false
+		}
+	}
+	return true
+}
+
 // havocComps replaces the given components by fresh arrays (with a frame when
 // locs != nil) and advances the allocation frontier.
 func (f *Frame) havocComps(comps []string, all bool, locs []modLoc, framed bool, at string, st *State, origin string) {
@@ -432,6 +445,16 @@ func (f *Frame) havocComps(comps []string, all bool, locs []modLoc, framed bool,
 		for _, cn := range comps {
 			c := vc.S.comps[cn]
 			if c == nil {
+				continue
+			}
+			if framed && allocOnly(c, locs) {
+				// the callee's (verified or assumed) frame lists no location of this
+				// component: it only allocates there. What lies beyond the allocation
+				// frontier is unconstrained in the current heap (type invariants are
+				// guarded by the frontier), so the same heap also describes the state
+				// after the call; the callee's postcondition then speaks about it.
+				// Everything stored below the new frontier predates it.
+				vc.heapTypeInv(c, vc.heapOf(st, c), vc.curBlk, na)
 				continue
 			}
 			ho := vc.heapOf(st, c)
